@@ -84,6 +84,16 @@ def gen_cases(rng: Rng, tier):
     n = dict(quick=220, thorough=2500)[tier]
     big = tier == "thorough"
     kinds = ["weights", "trapz", "int2", "int3", "norm", "gram", "gram2d", "multi", "basis", "gram_seq"]
+    # structured head, present in every run: named bases of every family, every spline degree, both
+    # settings of the normalisation option, on a domain other than [0, 1]
+    for fam, kw, K in [("bsplines", {"degree": 1}, 5), ("bsplines", {"degree": 2}, 6), ("bsplines", {}, 6),
+                       ("bsplines", {"degree": 4}, 9), ("bsplines", {"degree": 5}, 11),
+                       ("legendre", {}, 4), ("fourier", {}, 5), ("wiener", {}, 4)]:
+        for norm_ in (False, True):
+            N = rng.randint(2, 5)
+            yield dict(kind="basis", family=fam, K=K, is_normalized=norm_, kw=kw, ck="rand", B=[], method="trapz",
+                       t=[rs(x) for x in rng.grid(25, lo=rng.choice([0, -1, 2]), scale=rng.choice([1, 2, 5]), uniform=True)],
+                       C=[[rs(x) for x in r] for r in _curves0(rng, N, K, "rand")[0]])
     for k in range(n):
         kind = kinds[k % len(kinds)]
         if kind == "weights":
